@@ -139,6 +139,8 @@ def check_setter(chk, prog, env, model):
                 wc = want_code
                 if muts == ('json_integer_set',) and muts in want_muts:
                     wc = V['NONE']      # the in-place update of an integer member cannot fail (see mut())
+                if rc != 0 and wc == V['INVALID'] and muts and code == V.get('NOMEM'):
+                    wc = code           # a failed jansson store is an allocation failure: the documented NOMEM code is as good as INVALID
                 if code != wc:
                     problems.append('returns %s, expected %s' % (code, wc))
                 if er != code:
